@@ -33,6 +33,8 @@ pub struct Ctx {
     pub scale: f64,
     pub miri: bool,
     pub case_no: u64,
+    /// oracle evaluations (inputs judged); >= case_no when a case judges many inputs
+    pub evals: u64,
     pub counters: BTreeMap<String, u64>,
     pub distinct: HashSet<u64>,
     pub samples: Vec<String>,
@@ -115,6 +117,7 @@ impl Ctx {
             scale,
             miri,
             case_no: 0,
+            evals: 0,
             counters: BTreeMap::new(),
             distinct: HashSet::new(),
             samples: Vec::new(),
